@@ -317,7 +317,7 @@ Proof.
   assert (Hfail : forall c, Inv (set_next_rid s (next_rid s + 1)) (tr ++ [OSent (next_rid s); OFail (next_rid s) c])).
   { intros c. eapply (Inv_step true); [exact I| |intros po H; exact (inv_po _ _ I po H)].
     constructor; [intros r|intros r| ]; unf; simp_sets; cbn [andb]; rewrite ?T2; try lia; try (split; [lia|intros _; lia]). }
-  destruct (memN p (peers s)); [destruct ok|destruct dial; cbn [negb]; [destruct dok|]]; cbn [fst snd]; auto.
+  destruct (memN p (peers s)); [destruct ok|destruct dial; cbn [negb]; [destruct (dial_accepted dok)|]]; cbn [fst snd]; auto.
   - eapply (Inv_step true); [exact I| |].
     + constructor; [intros r|intros r| ]; unf; simp_sets; cbn [andb]; rewrite ?T1, ?T1o, ?T1d, ?map_app, ?cnt_app; cbn [map snd rid_po po_req q_rid];
         rewrite ?cnt_cons, ?cnt_nil; try lia; try (split; [lia|intros _; lia]).
@@ -752,6 +752,8 @@ Proof.
   - unfold h_burn. cbn [fst snd]. eapply Inv_same_ledger; [exact I| |reflexivity]. unfold same_ledger; simp_sets; repeat split; try lia; try reflexivity.
   - cbn [fst snd]. rewrite app_nil_r. exact I.
   - cbn [fst snd]. rewrite app_nil_r. exact I.
+  - cbn [fst snd]. rewrite app_nil_r. exact I.
+  - cbn [fst snd]. rewrite app_nil_r. exact I.
 Qed.
 
 Lemma run_Inv cf0 evs : forall st tr,
@@ -906,7 +908,7 @@ Proof.
   assert (N1 : forall c, nosent [OFail (next_rid s) c]) by (intros c r [H|[]]; discriminate).
   assert (N0 : nosent [OOpen sid p]) by (intros r [H|[]]; discriminate).
   assert (N0d : nosent [ODial p]) by (intros r [H|[]]; discriminate).
-  destruct (memN p (peers s)); [destruct ok|destruct dial; cbn [negb]; [destruct dok|]]; cbn [fst snd];
+  destruct (memN p (peers s)); [destruct ok|destruct dial; cbn [negb]; [destruct (dial_accepted dok)|]]; cbn [fst snd];
     constructor; unfold owed in *; unf; simp_sets;
     try (intros g H; left; exact H);
     try (intros r H; left; rewrite ?map_app, ?cnt_app; lia).
@@ -1224,6 +1226,8 @@ Proof.
   - unfold h_burn. cbn [fst snd]. apply Keeps_same; [|intros r []]. unfold same_ledger; simp_sets; repeat split; try lia; try reflexivity.
   - cbn [fst snd]. apply Keeps_refl.
   - cbn [fst snd]. apply Keeps_refl.
+  - cbn [fst snd]. apply Keeps_refl.
+  - cbn [fst snd]. apply Keeps_refl.
 Qed.
 
 Definition cancel_reqs (evs : list ev) : list N :=
@@ -1465,6 +1469,8 @@ Proof.
   - unfold h_burn. cbn [fst]. exact L.
   - cbn [fst]. exact L.
   - cbn [fst]. exact L.
+  - cbn [fst]. exact L.
+  - cbn [fst]. exact L.
 Qed.
 
 Theorem inbound_bound cf0 evs :
@@ -1594,7 +1600,7 @@ Lemma send_Inv3 s p dial len tag fb ok dok sid :
   Inv3 s -> Inv3 (fst (h_send s p dial len tag fb ok dok sid)).
 Proof.
   intros [C P]. unfold h_send. simp_sets.
-  destruct (memN p (peers s)) eqn:Mp; [destruct ok|destruct dial; cbn [negb]; [destruct dok|]]; cbn [fst];
+  destruct (memN p (peers s)) eqn:Mp; [destruct ok|destruct dial; cbn [negb]; [destruct (dial_accepted dok)|]]; cbn [fst];
     try (constructor; simp_sets; [intros x H; eapply covered_mono; [| |exact (C x H)]; simp_sets; auto using self_fut|exact P]).
   constructor; simp_sets.
   - intros x H. apply in_app_or in H. destruct H as [H|[<-|[]]].
@@ -1855,6 +1861,8 @@ Proof.
     unfold same_ledger. simp_sets. repeat split; try lia; try reflexivity.
   - cbn [fst]. exact I3.
   - unfold h_burn. cbn [fst]. apply (Inv3_same_ledger s); [exact I3|]. unfold same_ledger; simp_sets; repeat split; try lia; try reflexivity.
+  - cbn [fst]. exact I3.
+  - cbn [fst]. exact I3.
   - cbn [fst]. exact I3.
   - cbn [fst]. exact I3.
 Qed.
@@ -2431,6 +2439,8 @@ Proof.
     split; [reflexivity|split; [apply FutsPrev_same; reflexivity|reflexivity]].
   - cbn [fst snd]. apply Q_facts; [apply Q_refl|unfold nch, with_aux; cbn [chans]; lia].
   - cbn [fst snd]. apply Q_facts; [apply Q_refl|unfold nch, with_aux; cbn [chans]; lia].
+  - cbn [fst snd]. apply Q_facts; [apply Q_refl|unfold nch, with_aux; cbn [chans]; lia].
+  - cbn [fst snd]. apply Q_facts; [apply Q_refl|unfold nch, with_aux; cbn [chans]; lia].
 Qed.
 
 (* what one step can emit *)
@@ -2522,6 +2532,8 @@ Proof.
     match goal with |- context [h_uresp cf0 s ?a ?b ?c ?f ?d ?e] =>
       pose proof (uresp_plain cf0 s a b c f d e) as H; destruct (h_uresp cf0 s a b c f d e) as [s1 o] end. exact H.
   - left. destruct (nth_mod k (hpend en)) as [irid|]; cbn [fst snd]; reflexivity.
+  - left. reflexivity.
+  - left. reflexivity.
   - left. reflexivity.
   - left. reflexivity.
   - left. reflexivity.
@@ -2763,7 +2775,7 @@ Proof. intros (D & _ & P & _ & N & _). repeat split; auto. Qed.
 Lemma send_DP s p dial len tag fb ok dok sid : DP s (fst (h_send s p dial len tag fb ok dok sid)).
 Proof.
   unfold h_send. simp_sets.
-  destruct (memN p (peers s)); [destruct ok|destruct dial; cbn [negb]; [destruct dok|]]; cbn [fst];
+  destruct (memN p (peers s)); [destruct ok|destruct dial; cbn [negb]; [destruct (dial_accepted dok)|]]; cbn [fst];
     (split; [simp_sets; lia|]); intros r Hr; unf; simp_sets; rewrite ?map_app, ?cnt_app; cbn [map rid_po rid_d po_req snd q_rid];
     rewrite ?cnt_cons, ?cnt_nil; destruct (N.eqb_spec r (next_rid s)); lia.
 Qed.
@@ -2896,6 +2908,8 @@ Proof.
     unfold h_urej. cbn [fst]. apply Keep3_DP. repeat split; cbn; lia.
   - cbn [fst]. apply Keep3_DP, Keep3_refl.
   - unfold h_burn. cbn [fst]. apply Keep3_DP. repeat split; cbn; lia.
+  - cbn [fst]. apply Keep3_DP, Keep3_refl.
+  - cbn [fst]. apply Keep3_DP, Keep3_refl.
   - cbn [fst]. apply Keep3_DP, Keep3_refl.
   - cbn [fst]. apply Keep3_DP, Keep3_refl.
 Qed.
@@ -3400,7 +3414,7 @@ Proof.
         cbn. rewrite (proj2 (N.eqb_neq _ _) Hne). reflexivity.
       * exact G9.
       * intros x Hx. apply filter_In in Hx. destruct Hx as [Hx _]. exact (G10 x Hx).
-  - destruct dial; cbn [negb]; [destruct (_ && _ && _)|]; cbn [fst snd] in *;
+  - destruct dial; cbn [negb]; [destruct (dial_accepted _)|]; cbn [fst snd] in *;
       (constructor; cbn [g_now g_conn g_dials g_opens g_live]; simp_sets; cbn [o_dials o_opens o_binds flat_map app map]; rewrite ?app_nil_r;
        [exact G1|exact G2|exact G3| |exact G5|exact G6|exact G7| |exact G9|
         intros x Hx; apply filter_In in Hx; destruct Hx as [Hx _]; exact (G10 x Hx)]).
@@ -4181,6 +4195,12 @@ Proof.
   - cbn [step] in *. cbn [fst snd] in *.
     eapply (GI_inert cf s en g s _ _ [] _ tr); [exact G|exact I'|apply Inert_refl|apply nocall_nil|reflexivity|reflexivity| |cbn; lia].
     apply conn_same_conns. reflexivity.
+  - cbn [step] in *. cbn [fst snd] in *.
+    eapply (GI_inert cf s en g s _ _ [] _ tr); [exact G|exact I'|apply Inert_refl|apply nocall_nil|reflexivity|reflexivity| |cbn; lia].
+    apply conn_same_conns. reflexivity.
+  - cbn [step] in *. cbn [fst snd] in *.
+    eapply (GI_inert cf s en g s _ _ [] _ tr); [exact G|exact I'|apply Inert_refl|apply nocall_nil|reflexivity|reflexivity| |cbn; lia].
+    apply conn_same_conns. reflexivity.
 Qed.
 
 Lemma run_GI cf evs : forall s en g tr,
@@ -4450,6 +4470,8 @@ Proof.
     match goal with |- context [h_uresp cf0 s ?a ?b ?c ?f ?d ?e0] =>
       pose proof (uresp_feed cf0 s a b c f d e0 i) as H; destruct (h_uresp cf0 s a b c f d e0) as [s1 o] end. exact H.
   - destruct (nth_mod k (hpend en)) as [irid|]; cbn [fst snd]; intros [].
+  - cbn [fst snd]. intros [].
+  - cbn [fst snd]. intros [].
   - cbn [fst snd]. intros [].
   - cbn [fst snd]. intros [].
   - cbn [fst snd]. intros [].
@@ -4727,6 +4749,8 @@ Proof.
   - cbn [fst snd]. intros [].
   - cbn [fst snd]. intros [].
   - cbn [fst snd]. intros [].
+  - cbn [fst snd]. intros [].
+  - cbn [fst snd]. intros [].
 Qed.
 
 Definition sent_ids (o : list out) : list N := flat_map (fun x => match x with OSent r => [r] | _ => [] end) o.
@@ -4735,7 +4759,7 @@ Lemma send_reqs s p dial len tag fb ok dok sid q :
   In q (reqs (fst (h_send s p dial len tag fb ok dok sid))) -> In q (reqs s) \/ q = mkReq (next_rid s) len tag fb.
 Proof.
   rewrite !in_reqs. unfold h_send. simp_sets.
-  destruct (memN p (peers s)); [destruct ok|destruct dial; cbn [negb]; [destruct dok|]]; cbn [fst]; simp_sets;
+  destruct (memN p (peers s)); [destruct ok|destruct dial; cbn [negb]; [destruct (dial_accepted dok)|]]; cbn [fst]; simp_sets;
     try (intros H; left; exact H).
   - intros [H|[[po [Hpo E]]|H]]; [left; left; exact H| |left; right; right; exact H].
     apply in_app_or in Hpo. destruct Hpo as [Hpo|[<-|[]]]; [left; right; left; exists po; auto|right; symmetry; exact E].
@@ -4841,6 +4865,8 @@ Proof.
       pose proof (uresp_same cf0 s a b c0 f d e0) as [H _]; destruct (h_uresp cf0 s a b c0 f d e0) as [s1 o] end.
     intros Hq. left. exact (same_ledger_ReqsSub _ _ H q Hq).
   - destruct (nth_mod k (hpend en)) as [irid|]; cbn [fst]; auto.
+  - cbn [fst]. auto.
+  - cbn [fst]. auto.
   - cbn [fst]. auto.
   - cbn [fst]. auto.
   - cbn [fst]. auto.
@@ -5011,10 +5037,49 @@ Proof.
   destruct (H (mkRelay o [] []) (Nat.le_0_l _)) as [E L]. cbn [rl_delivered rl_queue rl_pending app] in E. auto.
 Qed.
 
-(* dial() refused at once (no address, own peer id, manager gone): exactly one RequestFailed *)
-Lemma dial_refused_one_failure s p len tag fb ok sid :
+(* dial() refused at once, whatever the refusal (every ImmediateDialError variant: any result
+   code that is not one of the two Ok flavours): exactly one RequestFailed naming the variant, and
+   the request is parked nowhere. *)
+Lemma dial_refused_one_failure s p len tag fb ok dres sid :
+  memN p (peers s) = false -> dial_accepted dres = false ->
+  let r := h_send s p true len tag fb ok dres sid in
+  snd r = [OSent (next_rid s); OFail (next_rid s) (E_DIAL_IMM dres)] /\ dials (fst r) = dials s /\ active (fst r) = active s /\ pouts (fst r) = pouts s /\ futs (fst r) = futs s.
+Proof. intros H D. unfold h_send. simp_sets. rewrite H, D. cbn. auto. Qed.
+
+(* the same at the level of a step of the whole system: whatever the environment (the manager's
+   belief about the peer, a clogged or closed command channel, the local peer id), a send_request
+   with DialOptions::Dial to a peer the protocol does not know either parks the request behind an
+   accepted dial, or fails it at once with the dial error — never both, never neither *)
+Lemma send_dial_step cf s en p len tag fb :
   memN p (peers s) = false ->
-  snd (h_send s p true len tag fb ok false sid) = [OSent (next_rid s); OFail (next_rid s) E_DIAL_IMMEDIATE] /\
-  dials (fst (h_send s p true len tag fb ok false sid)) = dials s /\
-  active (fst (h_send s p true len tag fb ok false sid)) = active s.
-Proof. intros H. unfold h_send. simp_sets. rewrite H. cbn. auto. Qed.
+  let r := step cf (s, en) (ESend p true len tag fb) in
+  let rid := next_rid s in
+  (dial_accepted (dial_res cf en p) = true /\ snd (fst r) = [OSent rid; ODial p] /\ dials (fst (fst (fst r))) = dials s ++ [(p, mkReq rid len tag fb)]) \/
+  (dial_accepted (dial_res cf en p) = false /\ snd (fst r) = [OSent rid; OFail rid (E_DIAL_IMM (dial_res cf en p))] /\ dials (fst (fst (fst r))) = dials s /\ active (fst (fst (fst r))) = active s /\ pouts (fst (fst (fst r))) = pouts s /\ futs (fst (fst (fst r))) = futs s).
+Proof.
+  intros H. cbn [step]. unfold h_send. simp_sets. rewrite H. cbn [negb].
+  destruct (dial_accepted (dial_res cf en p)); cbn [fst snd]; [left|right]; simp_sets; auto 10.
+Qed.
+
+(* which refusal: the checks of TransportManagerHandle::dial in their order *)
+Lemma dial_res_cases cf en p :
+  let r := dial_res cf en p in
+  (r = D_SELF /\ selfp cf && (p =? SELF_PEER) = true) \/
+  (selfp cf && (p =? SELF_PEER) = false /\
+   ((r = D_NOADDR /\ (mview cf en p = 0 \/ mview cf en p = 4)) \/
+    (r = D_CONNECTED /\ mview cf en p = 2) \/
+    (r = D_INPROGRESS /\ (mview cf en p = 3 \/ mview cf en p = 5 \/ mview cf en p = 6)) \/
+    (mview cf en p <> 0 /\ mview cf en p <> 2 /\ mview cf en p <> 3 /\ mview cf en p <> 4 /\
+     mview cf en p <> 5 /\ mview cf en p <> 6 /\
+     ((r = D_TASKCLOSED /\ mgr en = false) \/
+      (r = D_CLOGGED /\ mgr en = true /\ a_clog (aux_of en) = true) \/
+      (r = D_OK /\ mgr en = true /\ a_clog (aux_of en) = false))))).
+Proof.
+  unfold dial_res. destruct (selfp cf && (p =? SELF_PEER)); [left; auto|right; split; [reflexivity|]].
+  destruct (mview cf en p) as [|[[[q|q|]|[q|q|]|]|[[q|q|]|[q|q|]|]|]] eqn:V;
+    try (left; split; [reflexivity|]; auto; fail);
+    try (right; left; split; reflexivity);
+    try (right; right; left; split; [reflexivity|]; auto; fail);
+    (right; right; right; repeat (split; [discriminate|]);
+     destruct (mgr en); cbn [negb]; [destruct (a_clog (aux_of en)); [right; left|right; right]|left]; auto).
+Qed.
